@@ -26,6 +26,7 @@ from simkit.world import StreamPlan, World
 PROP = "C01"
 LEVEL = "fault_enumeration"
 TIERS = {"quick": 5000, "thorough": 150000}
+LOCALE_VARIES = True  # three of the sixteen shards run in a non-UTF-8 locale (simkit/runner.py: hashseed_for)
 RULE = (
     "one run = one generated well-formed tree (shapes: single node, chain, star, random, caterpillar, "
     "binary, stemmed; float32 coordinates from a pool stressing 4-decimal rounding; int32 types; 0-4 "
@@ -337,6 +338,12 @@ def execute(program: dict) -> dict:
             world.mkdir("out")
             try:
                 if wr["target"] == "path":
+                    if (gi + n + len(comments)) % 3 == 0:
+                        # the target already exists and is LONGER than what is about to be written (an earlier
+                        # export of a bigger tree): nothing of it may survive
+                        old = "# older export\n" + "".join(f"{k + 1} 3 {k}.5 0 0 1 {k if k else -1}\n" for k in range(n + 40))
+                        world.put(rel, old.encode("utf-8"))
+                        world.fired("target_path_held_a_longer_file")
                     world.write_plans[rel] = StreamPlan.from_json(wr.get("wstream"))
                     # the path as a str or, in a third of the writes, as a pathlib.Path (any os.PathLike)
                     target = world.path(rel) if (gi + len(text_so_far)) % 3 else pathlib.Path(world.path(rel))
